@@ -274,6 +274,24 @@ def main(argv):
         if scratch and not os.environ.get("KX_KEEP"):
             shutil.rmtree(scratch, ignore_errors=True)
 
+    # ------------------------------------------------------------------ assumption scan of the Kani harness sources
+    if harnesses:
+        kscan = {}
+        for root, _, files in os.walk(os.path.join(VERIF, "kani")):
+            for fn in files:
+                if not fn.endswith(".rs"):
+                    continue
+                txt = open(os.path.join(root, fn)).read()
+                rel = os.path.relpath(os.path.join(root, fn), VERIF)
+                used = [h for h in harnesses if re.search(r"\b" + re.escape(h) + r"\b", txt)]
+                if not used:
+                    continue
+                kscan[rel] = {"harnesses_here": used,
+                              "assume_calls": len(re.findall(r"\.assume\(|kani::assume\(", txt)),
+                              "stubs": sorted(set(re.sub(r"\s+", " ", m) for m in re.findall(r"#\[kani::stub\(([^\]]*)\)\]", txt))),
+                              "unsafe_blocks": len(re.findall(r"\bunsafe\b", txt))}
+        assumption_scan["kani"] = kscan
+
     # ------------------------------------------------------------------ verdict + evidence
     n_ob = len(obligations)
     n_ok = sum(1 for o in obligations if o["ok"])
